@@ -7,7 +7,7 @@ CONSTANTS
   ConstLeaves <- CL_Q
   RawInts <- RI_Q
   SymLeaves <- S_X
-  RawStrs <- S_Y
+  RawStrs <- L_None
   BinOps <- Ops_All
   AllowNeg = TRUE
   MaxLeaves = 3
